@@ -62,6 +62,7 @@ def run(tier):
     jobs = []
     for i in range(n):
         m = genlib.rand_sm_model(r, "cpp", thorough)
+        m.pop("templatedir", None)      # C09 is about the boost::sml table of the default template set
         m["dclspc"] = r.choice(["", "MY_EXPORT"])
         jobs.append((m, thorough or i % 3 == 0))
     with concurrent.futures.ProcessPoolExecutor(max_workers=14) as ex:
